@@ -416,7 +416,14 @@ def problem_kind(p):
     return p[0].split(":")[0].split(" -- ")[0][:40] if p else None
 
 
-def shrink(v, rounds=12, width=60):
+def reproduces_alone(c, kind=None):
+    """does the oracle fail on this single input in a fresh interpreter (what --replay will do)?"""
+    r = common.run_impl("c10_impl", [c], procs=1)[0]
+    p = oracle_parse(c, r) if c["kind"] == "parse" else oracle_prog(c, r)
+    return bool(p) and (kind is None or problem_kind(p) == kind)
+
+
+def shrink(v, rounds=40, width=60):
     """Greedy shrinking of the input of a Violation: keep a smaller tree / object as long as the
     oracle fails on it in the same way and with the same attribution features."""
     c = v.replay.get("case")
@@ -446,6 +453,8 @@ def shrink(v, rounds=12, width=60):
         if nxt is None:
             break
         cur, curp = nxt, nxtp
+    if cur is not c and not reproduces_alone(cur, kind):
+        cur = c           # candidates of one round share an interpreter; keep only what fails on its own
     if cur is not c:
         what = "%s: %s -- %s" % (v.what.split(":")[0], json.dumps(cur.get("text", cur.get("spec")))[:300], curp[0])
         return Violation(what, {"case": cur, "problems": curp, "shrunk_from": c.get("text", c.get("spec"))}, finding=v.finding)
@@ -567,7 +576,18 @@ def check(run):
     size = lambda v: len(json.dumps(v.replay.get("case", {}).get("text") or v.replay.get("case", {}).get("spec") or ""))   # noqa: E731
     # smallest failing input first; the unclassified ones that will be printed are shrunk
     run.violations.sort(key=size)
-    unl = [v for v in run.violations if v.finding is None][:5]
+    # an unclassified failure is reported with an input that fails on its own in a fresh interpreter (some defects
+    # depend on what the worker process converted before); others are kept only if none reproduces alone
+    unl_all = [v for v in run.violations if v.finding is None]
+    unl, history = [], []
+    for v in unl_all[:40]:
+        if len(unl) >= 5:
+            break
+        (unl if reproduces_alone(v.replay["case"]) else history).append(v)
+    if unl:
+        drop = {id(v) for v in history}
+        run.violations = [v for v in run.violations if id(v) not in drop]
+        run.coverage["history_dependent_failures_dropped"] = len(history)
     shrunk = {id(v): shrink(v) for v in unl}
     seen_inputs, kept = set(), []
     for v in [shrunk.get(id(v), v) for v in run.violations]:
